@@ -79,6 +79,9 @@ var c17aPromFrags = []string{"1+1", "5", "2*3 > bool 1", "cpu", "cpu{host=\"h1\"
 	"{__name__=~\"c.*\"}", "{__name__=~\"(\"}", "{host=\"h1\"}", "deriv(cpu[5m])", "predict_linear(cpu[5m], 60)", "changes(cpu[5m])", "resets(cpu[5m])", "irate(cpu[1s])", "timestamp(cpu)", "hour(cpu)", "sgn(cpu)", "ln(cpu)", "-cpu", "cpu ^ 2 ^ 3",
 	"absent(cpu)", "vector(1)", "time()", "scalar(cpu)", "sort(cpu)", "label_join(cpu, \"a\", \",\", \"host\")", "count_values(\"v\", cpu)", "sum(rate(c17m[5m])) by (host) > 0", "avg without (host) (cpu)"}
 
+// series of the bootstrap: c17d has a sample every 10 s (several samples in the first window of every range function)
+var c17aPromSelectors = []string{"c17d", "c17d", "cpu", "c17m", "c17d{host=\"h1\"}", "cpu{host=~\"h.*\"}"}
+
 func c17aESQuery(r *rand.Rand, depth int) interface{} {
 	leafs := []func() interface{}{
 		func() interface{} { return map[string]interface{}{"match_all": map[string]interface{}{}} },
@@ -191,6 +194,9 @@ func c17aESBody(r *rand.Rand) string {
 // c17aText: a query text of the language: the generator of suite "parsers" (fragments + byte-level mutate) for
 // Splunk QL / SQL / PromQL, fragment lists of this file for the others
 func c17aText(r *rand.Rand, lang string) string {
+	if c17aForcedText != "" {
+		return c17aForcedText
+	}
 	var text string
 	switch lang {
 	case "spl":
@@ -203,6 +209,9 @@ func c17aText(r *rand.Rand, lang string) string {
 	case "sql":
 		text = sqlFrags[r.Intn(len(sqlFrags))]
 	case "promql":
+		if r.Intn(3) == 0 { // every numeric parameter of the language with values inside and outside its domain, over series with samples
+			return promNumText(r, c17aPromSelectors)
+		}
 		if r.Intn(2) == 0 {
 			text = c17aPromFrags[r.Intn(len(c17aPromFrags))]
 			break
@@ -235,6 +244,37 @@ func c17aText(r *rand.Rand, lang string) string {
 		text = string(b)
 	}
 	return text
+}
+
+// c17aGenPromNum: a PromQL text with a numeric parameter (promNumTmpls: every function of the language that takes one, values
+// inside and outside its domain) over a series WITH samples, unmutated, through one of the routes that evaluate PromQL: the
+// instant and range query routes, the UI query route and the metrics-explorer route with its formula
+var c17aForcedText string
+var c17aPromPlan [][3]string
+
+func c17aGenPromNum(r *rand.Rand, rts []c17aRoute) string {
+	var cands []*c17aRoute
+	for i := range rts {
+		p := rts[i].path
+		if strings.HasSuffix(rts[i].text, ":promql") && (strings.HasSuffix(p, "/api/v1/query") || strings.HasSuffix(p, "/api/v1/query_range") || strings.HasSuffix(p, "/api/ui/query") || strings.HasSuffix(p, "/api/v1/timeseries")) {
+			cands = append(cands, &rts[i])
+		}
+	}
+	if len(cands) == 0 {
+		return c17aGenModelLine(r)
+	}
+	tmpl := promNumTmpls[r.Intn(len(promNumTmpls))]
+	if len(c17aPromPlan) > 0 { // every function × every value class once, then at random
+		pc := c17aPromPlan[0]
+		c17aPromPlan = c17aPromPlan[1:]
+		tmpl = pc[0]
+		c17aForcedText = promNumFillClass(r, tmpl, pc[1], []string{pc[2]})
+	} else {
+		c17aForcedText = promNumFill(r, tmpl, c17aPromSelectors)
+	}
+	defer func() { c17aForcedText = "" }()
+	line := c17aGenLine(rand.New(c17aZeroSrc{}), cands[r.Intn(len(cands))]) // the zero source: the text goes in, nothing is mutated
+	return strings.Replace(line, " #text:promql", " #text:promql+promnum:"+promNumFn(tmpl), 1)
 }
 
 // the search routes take one of these languages
@@ -897,6 +937,24 @@ func c17aGen(r *rand.Rand, n int, tier string) []string {
 			out = append(out, c17aGenValid(&rts[i]))
 		}
 	}
+	c17aPromPlan = nil
+	if n >= 1000 {
+		c17aPromPlan = promNumPlan(r, []string{"c17d", "cpu"}) // c17d: several samples per window and per bucket; cpu: two series
+	}
+	// the goroutines of a query after each terminal state (`gl`): early, while the servers are fresh, every state on every server
+	ngl := 12
+	if tier != "quick" {
+		ngl = 48
+	}
+	if n < 200 {
+		ngl = 4
+	}
+	for i := 0; i < ngl && len(out) < n; i++ {
+		// (rotated, so that the states of a server differ; `cancelled` more rarely: on a tree whose cancelled queries keep their
+		// timer goroutine — known finding — each such line waits for the whole deadline)
+		st := []string{"timeout", "complete", "error", "timeout", "cancelled", "complete", "error", "timeout", "complete", "error", "timeout", "complete"}[i%12]
+		out = append(out, c17gGenLine(r, st))
+	}
 	for len(out) < n {
 		if r.Intn(12) == 0 {
 			out = append(out, c17aGenModelLine(r))
@@ -906,12 +964,16 @@ func c17aGen(r *rand.Rand, n int, tier string) []string {
 			out = append(out, c17aGenSeq(r, rts))
 			continue
 		}
+		if r.Intn(5) == 0 {
+			out = append(out, c17aGenPromNum(r, rts))
+			continue
+		}
 		out = append(out, c17aGenLine(r, pick[r.Intn(len(pick))]))
 	}
 	// tickets: the j-th line that goes to a server (see c17aAcquire)
 	j := 0
 	for i, l := range out {
-		if strings.HasPrefix(l, "rq ") || strings.HasPrefix(l, "ws ") || strings.HasPrefix(l, "sq ") {
+		if strings.HasPrefix(l, "rq ") || strings.HasPrefix(l, "ws ") || strings.HasPrefix(l, "sq ") || strings.HasPrefix(l, "gl ") {
 			out[i] = l + "@" + strconv.Itoa(j)
 			j++
 		}
